@@ -589,6 +589,7 @@ pub fn check(prop: &str, tier: &str) -> i32 {
     let t0 = Instant::now();
     let seed = base_seed();
     println!("VERIF_SEED={seed} property={prop} tier={tier}");
+    sweep_stale_sandboxes();
     let batches = plan(prop);
     if batches.is_empty() {
         eprintln!("no check for property {prop}");
@@ -721,7 +722,7 @@ pub fn check(prop: &str, tier: &str) -> i32 {
         // a run that kills its process (abort inside an extern "C" client call, runaway loop) is a
         // violation of the properties that promise a clean answer; elsewhere it is a harness error
         let world_b = c["world"].as_str() == Some("B");
-        if matches!(prop, "C14" | "C18" | "C15") || (world_b && matches!(prop, "C05" | "C17")) {
+        if matches!(prop, "C14" | "C18" | "C15" | "C16") || (world_b && matches!(prop, "C05" | "C17")) {
             new_violations += 1;
             let dir = replay_dir();
             let _ = std::fs::create_dir_all(&dir);
